@@ -141,6 +141,85 @@ theorem quiescent_means_drained {kind : Nat → W.Full.Cmd} (hk : ∀ n, (kind n
   have hd := hq hsl hno hext hout
   exact ⟨hd, sync_all_empty s (sync_reach h) (fun q hq => (hd q hq).1)⟩
 
+/-- **Deadlock freedom of the whole composition, all stages.** Application threads (any number, any
+    scripts ending with a drain, commands of any handled kind), `runAsync`, the engine goroutine
+    (which returns from `Run` only when no tick event is scheduled and no connection has an event
+    pending), `Driver.Tick` with all seven stages, the GPU side and the MMU side: a reachable state in
+    which NO actor can move is one where every application thread has finished its whole script —
+    no `DrainCommandQueue` is left waiting, whatever the commands were. The ingredients, all on one
+    state: `K`'s protocol invariant (`PInv`: a scheduled tick is handled; `Note`: nobody waits on an
+    empty queue), the link (`owed` ⇒ a thread `willSignal` ∨ `r = tick`), `W.Full`'s wake invariant
+    and request conservation (`Full.quiescent_means_drained`), `Sync`. -/
+theorem no_stuck_state {kind : Nat → W.Full.Cmd} (hk : ∀ n, (kind n).handled = true)
+    {caps : W.Full.Caps} (hcap : 0 < caps.gOut) {s : St} (h : Reach kind caps s)
+    (hst : stuck kind caps s) : K.finished s.k := by
+  have hd := dinv_reach h
+  have hp := pinv_reach h
+  -- the engine goroutine is not running
+  have he : s.k.e = .none := by
+    have h1 := hst .eng
+    have h2 := hst (.env .retrieveG)
+    cases he : s.k.e with
+    | none => rfl
+    | loop => simp [step, envOk, he] at h2
+    | deq i => have := hd.nomid; simp [he, K.isTickPc] at this
+    | notify i => have := hd.nomid; simp [he, K.isTickPc] at this
+    | start => simp [step, he, K.step, K.isTickPc] at h1
+    | afterRun => simp [step, he, K.step, K.isTickPc] at h1
+    | clear => cases hpd : s.k.pend <;> simp [step, he, K.step, K.isTickPc, hpd] at h1
+  -- `runAsync` is in its `select`
+  have hr : s.k.r = .idle := by
+    have h1 := hst .async
+    cases hr : s.k.r with
+    | idle => rfl
+    | tick => simp [step, K.step, hr, he, K.isTickPc] at h1
+    | chkFlag => cases hrn : s.k.running <;> simp [step, K.step, hr, hrn] at h1
+  -- no tick event is scheduled
+  have hev : s.k.evt = false := by
+    cases hev : s.k.evt with
+    | false => rfl
+    | true =>
+      have := hp.look hev
+      simp [K.willLook, hr, he, K.isTickPc] at this
+  -- every thread has finished or is blocked in `Wait`
+  have happ : ∀ a ∈ s.k.apps, K.appDone a ∨ a.pc = .waiting := by
+    intro a ha
+    obtain ⟨j, hj⟩ := List.mem_iff_getElem?.mp ha
+    have h1 := hst (.app j)
+    simp only [step, hj, Option.map_eq_none_iff] at h1
+    exact stepApp_none s.k j a (by simpa [K.step, hj] using h1) hr
+  have hnw : ¬ ∃ a ∈ s.k.apps, K.willSignal a := by
+    rintro ⟨a, ha, hw⟩
+    rcases happ a ha with ⟨h1, h2⟩ | h1
+    · simp [K.willSignal, h1, h2] at hw
+    · simp [K.willSignal, h1] at hw
+  obtain ⟨hout, hext⟩ := hd.exit (Or.inr (Or.inr he))
+  have hq := (quiescent_means_drained hk hcap h hev hnw (by simp [hr]) hext hout).2
+  intro a ha
+  rcases happ a ha with h1 | h1
+  · exact h1
+  · exact absurd (hq a.q) (hd.note a ha (Or.inr h1))
+
+/-- **End to end, one application thread, ALL stages.** One application thread with ANY script of
+    `Enqueue(q)` / `DrainCommandQueue(q)` calls that ends with a drain, commands of any handled kind
+    (Noop, kernel, H2D/D2H copy, magic copy, flush), any configuration, any interleaving `ts` of the
+    thread, `runAsync`, the engine goroutine, the GPU side and the MMU side. In the state reached:
+    (W) if `Driver.Tick` has any of the seven kinds of work, its tick event is scheduled AND will be
+    handled by the engine goroutine, or the thread still owes its signal, or `runAsync` is about to
+    call `TickLater`; (K) if no actor can move, every `DrainCommandQueue` of the script has returned;
+    a returning drain found the component's queue empty (`drain_returns_only_when_empty`). No
+    hypothesis links the wake model and the protocol model: `owed` is `owed_implies_signal_pending`. -/
+theorem end_to_end_one_thread (cfg : W.Full.Cfg) (script : List K.Op) (hok : K.okScript script = true)
+    (kind : Nat → W.Full.Cmd) (hk : ∀ n, (kind n).handled = true) (caps : W.Full.Caps) (hcap : 0 < caps.gOut)
+    (ts : List Th) (s : St) (hrun : runSched kind caps (init cfg [script]) ts = some s) :
+    (s.owed = true → (∃ a ∈ s.k.apps, K.willSignal a) ∨ s.k.r = .tick) ∧
+    (W.Full.work caps s.core →
+      (s.k.evt = true ∧ K.willLook s.k) ∨ (∃ a ∈ s.k.apps, K.willSignal a) ∨ s.k.r = .tick) ∧
+    (stuck kind caps s → K.finished s.k) := by
+  have hr : Reach kind caps s :=
+    reach_of_runSched ts _ s (Reach.init cfg [script] (by simpa using hok)) hrun
+  exact ⟨owed_implies_signal_pending hr, work_is_served hk hr, no_stuck_state hk hcap hr⟩
+
 /-! non-vacuity: one GPU, one queue, one thread: `EnqueueMemCopyH2D` (one page piece, delay 1); `DrainCommandQueue` -/
 def cfg1 : W.Full.Cfg := { nGpus := 1, ctxs := [0], cycH2D := 1 }
 def copy1 : Nat → W.Full.Cmd := fun _ => .copy false 1
@@ -173,6 +252,14 @@ example : (runSched copy1 {} demoF (schedF ++ [.app 0, .app 0, .env .retrieveG, 
     some (0, 0, 0, [], [1]) := ⟨by decide, by decide⟩
 example : (runSched copy1 {} demoF (schedF ++ [.app 0, .app 0, .env .retrieveG, .env (.answer 0), .eng, .eng, .app 0])).map
     (fun s => (decide (Sync s), decide (K.finished s.k))) = some (true, true) := by decide
+-- … the engine finds nothing scheduled and nothing pending, leaves `Run`, exits: nobody can move, everybody has finished
+def endF : List Th := schedF ++ [.app 0, .app 0, .env .retrieveG, .env (.answer 0), .eng, .eng, .app 0, .eng, .eng, .eng]
+example : (runSched copy1 {} demoF endF).map (fun s => (s.k.e, s.k.running, decide (K.finished s.k))) =
+    some (.none, false, true) := by decide
+example : (runSched copy1 {} demoF endF).map (fun s => ((step copy1 {} s (.app 0)).isNone, (step copy1 {} s .async).isNone,
+    (step copy1 {} s .eng).isNone, (step copy1 {} s (.env .retrieveG)).isNone)) = some (true, true, true, true) := by decide
+-- while the copy request is in the port the engine may NOT leave `Run` (it would strand the waiter)
+example : (runSched copy1 {} demoF (schedF ++ [.eng])).isNone = true := by decide
 
 end F
 end E
